@@ -44,6 +44,11 @@ pub enum Op {
         #[serde(default)]
         interrupted: bool,
     },
+    /// the handle in the slot is replaced by a clone of itself (File::clone) and the original is dropped: the work goes
+    /// on through a handle the application made itself
+    CloneSwap {
+        h: u8,
+    },
     /// a flush during which the (k+1)-th device call fails once; if the library reports the error the caller flushes
     /// again - a flush that then returns success has to have done everything the first one was asked for
     FlushRetry {
@@ -712,6 +717,7 @@ impl<'a> Run<'a> {
             Op::Seek { h, whence, off } => self.op_seek(*h, *whence, *off),
             Op::Truncate { h } => self.op_truncate(*h),
             Op::Flush { h } => self.op_flush(*h),
+            Op::CloneSwap { h } => self.op_clone_swap(*h),
             Op::FlushRetry { h, k, interrupted } => self.op_flush_retry(*h, *k, *interrupted),
             Op::SetTimes { h, which, ms } => self.op_set_times(*h, *which, *ms),
             Op::CloseFile { h } => {
@@ -1730,6 +1736,28 @@ impl<'a> Run<'a> {
         Ok(true)
     }
 
+    fn op_clone_swap(&mut self, h: u8) -> VResult<bool> {
+        let k = h as usize % NSLOTS;
+        if self.files[k].is_none() {
+            return Ok(false);
+        }
+        // the clone carries the position and the pending entry changes of the original; dropping the original writes
+        // its entry back and flushes the device like the drop of any handle (a flush point of its own)
+        self.call("clone the file handle and drop the original", |s| {
+            let orig = s.files[k].take().unwrap();
+            let c = orig.clone();
+            drop(orig);
+            s.files[k] = Some(c);
+        })?;
+        if self.crash {
+            if let Some((n, c)) = self.files[k].as_ref().map(|f| (f.node, f.set_created)) {
+                self.record_flush_event(n, c);
+            }
+        }
+        self.trace.hit("clone_swap");
+        Ok(true)
+    }
+
     fn op_flush_retry(&mut self, h: u8, fault_k: u16, interrupted: bool) -> VResult<bool> {
         let k = h as usize % NSLOTS;
         if self.files[k].is_none() {
@@ -2579,7 +2607,7 @@ impl<'a> Run<'a> {
         match op {
             Op::CreateFile { via, path, .. } | Op::CreateDir { via, path, .. } | Op::OpenFile { via, path, .. } | Op::OpenDir { via, path, .. } | Op::Remove { via, path } => (vec![abs(*via, path)], all_handles),
             Op::Rename { via, src, dvia, dst } => (vec![abs(*via, src), abs(*dvia, dst)], vec![]),
-            Op::Read { h, .. } | Op::Write { h, .. } | Op::WriteRetry { h, .. } | Op::Seek { h, .. } | Op::Truncate { h } | Op::Flush { h } | Op::FlushRetry { h, .. } | Op::SetTimes { h, .. } | Op::CloseFile { h } | Op::Extents { h } => (vec![], hp(*h)),
+            Op::Read { h, .. } | Op::Write { h, .. } | Op::WriteRetry { h, .. } | Op::Seek { h, .. } | Op::Truncate { h } | Op::Flush { h } | Op::CloneSwap { h } | Op::FlushRetry { h, .. } | Op::SetTimes { h, .. } | Op::CloseFile { h } | Op::Extents { h } => (vec![], hp(*h)),
             Op::Remount { .. } => (vec![], all_handles),
             _ => (vec![], vec![]),
         }
